@@ -190,10 +190,10 @@ def trace_conc(rng, stress=False):
     lay_sp = lay_sp[:-1] + [NL]
     csp = B.Conc(rng, "sp", lay_sp)
     pool = [w for w in B.SP_WORDS if "," not in w and w != "-"]
-    ws = rng.sample(pool, n + 2)
+    ws = rng.sample(pool, n)
     for k in range(n):
         csp.word[k + 1] = ws[k]
-    csp.word[NEWW], csp.word[B.ABSENT] = ws[n], ws[n + 1]
+    csp.word[NEWW], csp.word[B.ABSENT] = rng.sample([x for x in pool if x not in ws and not x.startswith("#")], 2)
     csp.texts = [csp.word[t] if t >= 1 else x for t, x in zip(lay_sp, csp.texts)]
     csp.field = "Xlist"
     line = "".join(csp.texts[1:-1])
@@ -446,7 +446,7 @@ def record_multi(rng, nevents, script=None):
         c = mconc.fmap[key][1]
         if rng.random() < 0.35:
             return c.word[NEWW]
-        words = B.SP_WORDS if key[1] == "sp" else B.CM_WORDS
+        words = [x for x in (B.SP_WORDS if key[1] == "sp" else B.CM_WORDS) if not x.startswith("#")]   # NEW values only
         if key[0] == "X" and key[1] == "sp":
             words = [x for x in words if "," not in x]
         return rng.choice(words)
